@@ -22,22 +22,22 @@ Lemma ue_mul_canon a b : canon (ue_mul a b). Proof. apply Qred_idem. Qed.
 Lemma ue_add_comm a b : ue_add a b = ue_add b a.
 Proof. apply Qred_complete, Qplus_comm. Qed.
 Lemma ue_add_assoc a b c : ue_add (ue_add a b) c = ue_add a (ue_add b c).
-Proof. apply Qred_complete. rewrite ue_add_Q, ue_add_Q. symmetry. apply Qplus_assoc. Qed.
+Proof. apply Qred_complete. rewrite (ue_add_Q a b), (ue_add_Q b c). symmetry. apply Qplus_assoc. Qed.
 Lemma ue_add_0 a : canon a -> ue_add a (0 # 1) = a.
-Proof. intro H. unfold ue_add. rewrite <- H at 2. apply Qred_complete. apply Qplus_0_r. Qed.
+Proof. intro H. unfold canon in H. unfold ue_add. rewrite <- H at 2. apply Qred_complete. apply Qplus_0_r. Qed.
 Lemma ue_sub_self a : ue_sub a a = 0 # 1.
 Proof. change (0 # 1) with (Qred (0 # 1)). apply Qred_complete. unfold Qminus. apply Qplus_opp_r. Qed.
 Lemma ue_sub_add a b : canon a -> ue_sub (ue_add a b) b = a.
 Proof.
-  intro H. unfold ue_sub. rewrite <- H at 2. apply Qred_complete. rewrite ue_add_Q. unfold Qminus.
+  intro H. unfold canon in H. unfold ue_sub. rewrite <- H at 2. apply Qred_complete. rewrite (ue_add_Q a b). unfold Qminus.
   rewrite <- Qplus_assoc, Qplus_opp_r. apply Qplus_0_r.
 Qed.
 Lemma ue_mul_add a b r : ue_mul (ue_add a b) r = ue_add (ue_mul a r) (ue_mul b r).
-Proof. apply Qred_complete. rewrite ue_add_Q, ue_add_Q, !ue_mul_Q. apply Qmult_plus_distr_l. Qed.
+Proof. apply Qred_complete. rewrite (ue_add_Q a b), (ue_mul_Q a r), (ue_mul_Q b r). apply Qmult_plus_distr_l. Qed.
 Lemma ue_mul_mul a r s : ue_mul (ue_mul a r) s = ue_mul a (r * s).
-Proof. apply Qred_complete. rewrite ue_mul_Q. symmetry. apply Qmult_assoc. Qed.
+Proof. apply Qred_complete. rewrite (ue_mul_Q a r). symmetry. apply Qmult_assoc. Qed.
 Lemma ue_mul_1 a : canon a -> ue_mul a (1 # 1) = a.
-Proof. intro H. unfold ue_mul. rewrite <- H at 2. apply Qred_complete, Qmult_1_r. Qed.
+Proof. intro H. unfold canon in H. unfold ue_mul. rewrite <- H at 2. apply Qred_complete, Qmult_1_r. Qed.
 
 (* ---- structural equality of normalised exponents IS equality of the rationals ---- *)
 Lemma ue_eqb_eq a b : ue_eqb a b = true <-> a = b.
@@ -72,14 +72,14 @@ Lemma u_add_comm a b : u_add a b = u_add b a.
 Proof. apply zipw_comm, ue_add_comm. Qed.
 Lemma u_add_assoc a b c : u_add (u_add a b) c = u_add a (u_add b c).
 Proof. apply zipw_assoc, ue_add_assoc. Qed.
-Lemma u_add_none a : canon_u a -> length a = 7 -> u_add a u_none = a.
+Lemma u_add_none a : canon_u a -> length a = 7%nat -> u_add a u_none = a.
 Proof.
   intros Hc Hl. do 8 (destruct a as [|? a]; try discriminate Hl). unfold u_add, zipw, u_none. simpl.
   repeat match goal with H : canon_u (_ :: _) |- _ => inversion H; clear H; subst end.
   unfold canon_u in *. repeat match goal with H : Forall _ (_ :: _) |- _ => inversion H; clear H; subst end.
   now rewrite !ue_add_0.
 Qed.
-Lemma u_sub_self a : length a = 7 -> u_sub a a = u_none.
+Lemma u_sub_self a : length a = 7%nat -> u_sub a a = u_none.
 Proof.
   intro Hl. do 8 (destruct a as [|? a]; try discriminate Hl). unfold u_sub, zipw, u_none. simpl. now rewrite !ue_sub_self.
 Qed.
